@@ -37,6 +37,12 @@ def strategy_(draw, tier):
     env = st.integers(1, 5)
     Xtr = [rng.normal(size=(draw(env), d)) + rng.normal(size=d) for _ in range(ns)]
     Xte = [rng.normal(size=(draw(env), d)) for _ in range(nt)]
+    if draw(st.booleans()):
+        # symmetry-equivalent atoms: a bitwise identical environment occurs twice (inside one structure and across structures)
+        j = draw(st.integers(0, nt - 1))
+        Xte[j] = np.vstack([Xte[j], Xte[j][:1]])
+        if nt >= 2:
+            Xte[(j + 1) % nt] = np.vstack([Xte[(j + 1) % nt], Xte[j][:1]])
     parts = []
     rem = d
     while rem > 0:
